@@ -10,6 +10,8 @@ from .common import arm_for, explain, find_in, has_call, has_stmt
 
 
 def run(ctx: Ctx) -> None:
+    if getattr(ctx, "_depth", 0) >= 2:
+        return  # alias of an alias: not followed (breaks import cycles between rule modules)
     repo = ctx.repo
     ctx.rule("C03.R5", "in each stream's StreamClosed arm `self.closed = True` is executed before the first await, so a second (re-entrant or concurrent) StreamClosed / handle() finds the stream already closed", floor=2)
     ctx.rule("C03.R6", "after a protocol's _close_stream the stream is no longer registered (H11: self.stream = None; H2: popped before it is notified), on every path", floor=2)
@@ -79,6 +81,9 @@ def run(ctx: Ctx) -> None:
     from . import c06
 
     c06.run(Alias(ctx, "C03.R14", "HTTP/1 recycling tears the finished stream down (StreamClosed, slot cleared) before the parked reader is released or the cycle restarted - otherwise the next pipelined request's stream is installed first and then wiped: its application never gets http.disconnect (C06.R4)", only={"C06.R4"}))
+    from . import c10
+
+    c10.run(Alias(ctx, "C03.R15", "WebSocket: every CloseConnection event - the client's own close or its acknowledgement of the server's - ends the stream (StreamClosed), which is what produces websocket.disconnect and lets the transport be closed (C10.R5)", only={"C10.R5"}))
     from . import c16
 
     c16.run(Alias(ctx, "C03.R13", "both workers realise the same write path, read loop and close sequence (C16 skeletons for TCPServer.protocol_send/_read_data/_close/_initiate_server_close)", only={"C16.R2"}, where=["TCPServer.protocol_send", "TCPServer._read_data", "TCPServer._close", "TCPServer._initiate_server_close"]))
